@@ -507,6 +507,9 @@ def run(res):
                          "the four listing repairs are not in this tree")
     else:
         res.extra["variant_selected"] = "mixed"
+    if agree[FIXED] != ncases and not res.violations:
+        res.disagree("the implementation does not follow the repaired variant of the listing model (the theorems of "
+                     "Properties/C14.v are about `fixed`) on %d of %d cases" % (ncases - agree[FIXED], ncases))
     # ---- guard the extraction on a sample
     t0 = boundary_trees()[0][1]
     expr = "(" + coq_run_expr(FIXED, (True, True, None, None), BASE * 1000000 + HOUR * 10 ** 6 + 1500 * 10 ** 6, None, t0) + ")"
